@@ -78,6 +78,14 @@ def scenarios(tier, seed):
     for (c, s) in mds_pairs_core:
         for ch in chains:
             out["hs|c%d_s%d|%s" % (c, s, ch)] = {"script": "hs_only", "cfg": {"c_mds": c, "s_mds": s, "chain": ch}}
+    # the client's first flight gets through and then nothing for two seconds: the server spends what is left of its
+    # 3x budget on probe timeouts - the last datagram that fits is smaller than a full one whenever three times the
+    # client's flight is not a multiple of the server's datagram size
+    for (c, s) in mds_pairs_core:
+        for ch in chains:
+            out["hs_silence|c%d_s%d|%s" % (c, s, ch)] = {
+                "script": "hs_only", "cfg": {"c_mds": c, "s_mds": s, "chain": ch,
+                                             "blackout_from": 0.005, "blackout_until": 2.0}}
     for ch in chains:
         out["echo|%s" % ch] = {"script": "echo", "cfg": {"chain": ch}}
     out["early|big"] = {"script": "early_data_like", "cfg": {"chain": "bigchain"}}
